@@ -584,6 +584,10 @@ func (g *goTrans) expr(e ast.Expr) ast.Expr {
 				return &ast.CallExpr{Fun: ast.NewIdent("vrIte"), Args: []ast.Expr{g.expr(x.Args[0]), g.expr(x.Args[1]), g.expr(x.Args[2])}}
 			case "hasAt":
 				return &ast.CallExpr{Fun: ast.NewIdent("vrHasAt"), Args: []ast.Expr{g.expr(x.Args[0]), g.expr(x.Args[1]), x.Args[2]}}
+			case "enumNames":
+				as := []ast.Expr{&ast.CallExpr{Fun: ast.NewIdent("int64"), Args: []ast.Expr{g.expr(x.Args[0])}}, g.expr(x.Args[1])}
+				as = append(as, x.Args[2:]...)
+				return &ast.CallExpr{Fun: ast.NewIdent("vrEnumNames"), Args: as}
 			case "__forall", "__exists", "pos", "lim", "sid", "fault", "peeked", "bsize", "data", "arr", "off", "ref", "is", "implements", "window", "windowAt", "fresh", "popcount64":
 				g.fail = "clause uses ghost construct " + id.Name
 				return x
@@ -881,7 +885,11 @@ func buildReplay(w *World, fr *FnResult, o *OblResult) (src, why, expect string)
 	switch {
 	case o.Kind == "ensures" && c.contract != nil:
 		expect = "postcondition false"
-		k, _ := strconv.Atoi(strings.TrimSuffix(strings.SplitN(strings.SplitN(o.Name, "#ensures:", 2)[1], "@", 2)[0], ""))
+		ks := strings.SplitN(strings.SplitN(o.Name, "#ensures:", 2)[1], "@", 2)[0]
+		if i := strings.Index(ks, "."); i >= 0 {
+			ks = ks[:i]
+		}
+		k, _ := strconv.Atoi(ks)
 		if k >= len(c.contract.Ensures) {
 			return "", "ensures ordinal", ""
 		}
@@ -916,7 +924,7 @@ func buildReplay(w *World, fr *FnResult, o *OblResult) (src, why, expect string)
 		fmt.Fprintf(&src2, "\t%s %q\n", b.imports[p], p)
 	}
 	src2.WriteString(")\n\n")
-	src2.WriteString("func vrIte[T any](c bool, a, b T) T {\n\tif c {\n\t\treturn a\n\t}\n\treturn b\n}\n\nfunc vrHasAt(b []byte, o int, s string) bool {\n\tfor i := 0; i < len(s); i++ {\n\t\tif o+i >= len(b) || b[o+i] != s[i] {\n\t\t\treturn false\n\t\t}\n\t}\n\treturn true\n}\n\nvar _ = vrIte[int]\nvar _ = vrHasAt\n\n")
+	src2.WriteString("func vrIte[T any](c bool, a, b T) T {\n\tif c {\n\t\treturn a\n\t}\n\treturn b\n}\n\nfunc vrHasAt(b []byte, o int, s string) bool {\n\tfor i := 0; i < len(s); i++ {\n\t\tif o+i >= len(b) || b[o+i] != s[i] {\n\t\t\treturn false\n\t\t}\n\t}\n\treturn true\n}\n\nfunc vrEnumNames(v int64, r string, fb string, kv ...interface{}) bool {\n\tfor i := 0; i+1 < len(kv); i += 2 {\n\t\tif int64(kv[i].(int)) == v {\n\t\t\treturn r == kv[i+1].(string)\n\t\t}\n\t}\n\treturn r == fb\n}\n\nvar _ = vrIte[int]\nvar _ = vrHasAt\nvar _ = vrEnumNames\n\n")
 	src2.WriteString(specSrc)
 	src2.WriteString("\nfunc TestVerifReplay(t *testing.T) {\n")
 	for _, s := range b.pre {
